@@ -14,6 +14,9 @@ NOTE = ("Trusted: CrossHair's models of Python builtins, z3, the reference model
         "are reported as not discharged and never counted as confirmed.")
 
 CLAIMS = {
+    "C01": ("for each of the 149 leaf kinds (datum kind x pre-processor x callable) the filter result, selected values/keys and "
+            "failure indices equal the reference meaning for every value and type of the symbolic leaves and arguments; any "
+            "escaping exception is a violation", "3 C01"),
     "C14": ("equality laws (reflexive/symmetric/transitive, rebuilt and commuted copies equal) and 'equal implies same "
             "behaviour' decided for every value of the differing atom (key, index, argument, label) and of the probe "
             "document's leaves, per term kind", "3 C14"),
